@@ -91,9 +91,16 @@ def run_case(case):
             out = c06.run_case(case)
         except Violation as v:
             # C06's known finding (0-D 16-bit parameter vs serial) says nothing about absent gradients: keep the shadow results
-            if v.witness.get("kind") != "zero_dim_update_wider_than_comm":
+            # and a difference from the serial optimizer at ROUNDING level is C06's subject, not this property's (mis-wired state or
+            # a touched absent parameter shows as an O(1) relative difference or as an absent_changed violation)
+            rounding_only = v.witness.get("kind") in ("serial_mismatch", "owner_update", "rounding_model") and v.witness.get("max_rel_diff", 1.0) < 1e-4
+            if v.witness.get("kind") != "zero_dim_update_wider_than_comm" and not rounding_only:
                 raise
-            out = {"counters": v.partial["counters"], "sigs": [], "sample": {"note": "C06 known finding hit; absent-parameter shadow still evaluated"}}
+            if not getattr(v, "partial", None):
+                raise
+            out = {"counters": v.partial["counters"], "sigs": [], "sample": {"note": "left to C06 (" + str(v.witness.get("kind")) + "); absent-parameter shadow still evaluated"}}
+            if rounding_only:
+                out["counters"]["ddp_rounding_level_mismatch_left_to_C06"] = 1
         c = out["counters"]
         c["ddp_absent_params_checked"] = c.pop("absent_params_checked", 0)
         c["ddp_worlds"] = c.pop("evals", 0)
